@@ -678,6 +678,7 @@ void run_history(const J &hist) {
   if (g_cfg.has("maxtimeout")) { opts.maxtimeout = (int)g_cfg["maxtimeout"].num(); optmask |= ARES_OPT_MAXTIMEOUTMS; }
   if (g_cfg.has("udpmax")) { opts.udp_max_queries = (int)g_cfg["udpmax"].num(); optmask |= ARES_OPT_UDP_MAX_QUERIES; }
   opts.qcache_max_ttl = (unsigned int)g_cfg["qcache"].num(0); optmask |= ARES_OPT_QUERY_CACHE;
+  if (g_cfg["qcachemax"].num()) opts.qcache_max_ttl = 0xFFFFFFFFu;   // the largest configurable lifetime
   if (g_cfg["rotate"].num()) optmask |= ARES_OPT_ROTATE; else optmask |= ARES_OPT_NOROTATE;
   opts.ednspsz = (int)g_cfg["ednspsz"].num(1232); optmask |= ARES_OPT_EDNSPSZ;
   std::vector<char *> doms;
@@ -796,7 +797,7 @@ void run_history(const J &hist) {
      "\"viafile\":%d,\"localdomain\":[%s],\"resndots\":%d}",
      g_nservers, opts.tries, opts.timeout, g_cfg["maxtimeout"].num(0), g_cfg["rotate"].num(0), g_cfg["udpmax"].num(0), g_cfg["usevc"].num(0),
      g_cfg["igntc"].num(0), g_cfg["nocheckresp"].num(0), g_cfg["edns"].num(0), g_cfg["dns0x20"].num(0), g_cfg["stayopen"].num(0),
-     g_cfg["nosearch"].num(0), g_cfg["noaliases"].num(1), g_cfg["qcache"].num(0), opts.ndots, domj.c_str(), jstr(lookups).c_str(),
+     g_cfg["nosearch"].num(0), g_cfg["noaliases"].num(1), (long long)(opts.qcache_max_ttl >= (1u << 30) ? (1LL << 30) : (long long)opts.qcache_max_ttl), opts.ndots, domj.c_str(), jstr(lookups).c_str(),
      g_cfg["retrychance"].num(10), g_cfg["retrydelay"].num(5000), g_cfg["pendwrite"].num(0), g_cfg["tfo"].num(0), g_cfg["hintmax"].num(0), g_cfg["hostsfile"].num(0),
      lookups.find('f') != std::string::npos ? 1 : 0, g_cfg["hostaliases"].num(0), viafile ? 1 : 0, ldj.c_str(), resndots);
 
